@@ -90,7 +90,7 @@ pub fn scenario(run: u64, rng: &mut SmallRng) {
     let mut nets: Vec<Arc<Network>> = vec![];
     let mut netcfg: Vec<Value> = vec![];
     for _ in 0..nnets {
-        let mtu = [100u16, 1500, 60][rng.gen_range(0..3)];
+        let mtu = [100u16, 1500, 60, 100, 1500, 65535][rng.gen_range(0..6)];
         let (lat_base, lat_rand) = [(0u64, 0u64), (3000, 0), (2000, 3000), (0, 0)][rng.gen_range(0..4)];
         let (thr_base, thr_rand) = [(0u64, 0u64), (100_000, 0), (50_000, 50_000), (1_000_000, 0)][rng.gen_range(0..4)];
         let mut b = NetworkBuilder::new().mtu(mtu);
@@ -144,6 +144,13 @@ pub fn scenario(run: u64, rng: &mut SmallRng) {
             _ => Some(rng.gen_range(0..next_mac[net])),
         };
         let mut len = [mtu - 1, mtu, mtu + 1, 1, 20, 0][rng.gen_range(0..6)];
+        if rng.gen_range(0..8) == 0 {
+            // far beyond the MTU: multiples of 2^16 plus something that would fit (length arithmetic in 16 bits)
+            len = [65536, 65536 + mtu, 65535 + mtu, 65537 + mtu, 65536 + 20, 2 * 65536 + 1, 3 * mtu, 200_000][rng.gen_range(0..8)];
+        }
+        if mtu == 65535 && len < 60000 && len > 100 {
+            len = 100;
+        }
         if len == 0 && have_zero {
             len = 2;
         }
